@@ -7,6 +7,7 @@ import (
 	"fmt"
 	"io"
 	"net/http"
+	"net/url"
 	"strconv"
 	"strings"
 	"sync"
@@ -29,6 +30,9 @@ type l1Req struct {
 	// Oneshot: the body function works once; its second call fails with ErrNotRetryable (what
 	// scheme/reg blobPutUploadFull builds for a source that is no io.Seeker)
 	Oneshot bool `json:"oneshot"`
+	// Direct: the request for a pagination link the way scheme/reg sends it since ac54726: DirectURL on that host,
+	// Host = that host, NoMirrors ("" or "none": an ordinary request)
+	Direct string `json:"direct"`
 }
 
 type l1Conf struct {
@@ -311,7 +315,7 @@ func (r *l1Run) RoundTrip(req *http.Request) (*http.Response, error) {
 	tr := r.clk.now()
 	ev := vtrace.Event{"ev": "att", "id": id, "h": host, "ta": ta, "tr": tr, "k": pk,
 		"ra": retryAfterUS(hdr.Get("Retry-After")), "mut": bit(isMut(req.Method)),
-		"mir": bit(!rq.Nomir && !isMut(req.Method)), "sig": req.Method + " " + req.URL.Path,
+		"mir": bit(!rq.Nomir && !isMut(req.Method) && (rq.Direct == "" || rq.Direct == "none")), "sig": req.Method + " " + req.URL.Path,
 		"inj": bit(pk != "ok"), "raw": kind, "st": status, "rng": rng}
 	if pk == "ra" {
 		r.mu.Lock()
@@ -397,6 +401,20 @@ func (r *l1Run) l1Exec(ctx context.Context, client *reghttp.Client, done chan<- 
 			if rq.Meth == "HEAD" {
 				req.MetaKind = reqmeta.Head
 			}
+			to := r.s.Conf.Up
+			if rq.Direct != "" && rq.Direct != "none" {
+				to = rq.Direct
+				hc := r.hostCfg(to)
+				scheme := "http"
+				if hc.TLS != config.TLSDisabled {
+					scheme = "https"
+				}
+				u, err := url.Parse(scheme + "://" + hc.Hostname + "/v2/proj/app/blobs/" + id + "?last=x&n=2")
+				if err != nil {
+					fatal("%v", err)
+				}
+				req.Host, req.DirectURL, req.NoMirrors = to, u, true
+			}
 			if rq.Expect {
 				req.ExpectLen = int64(r.s.Conf.N * l1Block)
 			}
@@ -415,8 +433,8 @@ func (r *l1Run) l1Exec(ctx context.Context, client *reghttp.Client, done chan<- 
 					}
 				}
 			}
-			r.rec.add(vtrace.Event{"ev": "do", "id": id, "mut": bit(isMut(rq.Meth)), "nomir": bit(rq.Nomir),
-				"ie": bit(rq.Ie), "tc": r.clk.now(), "os": bit(rq.Oneshot)})
+			r.rec.add(vtrace.Event{"ev": "do", "id": id, "mut": bit(isMut(rq.Meth)), "nomir": bit(req.NoMirrors),
+				"ie": bit(rq.Ie), "tc": r.clk.now(), "os": bit(rq.Oneshot), "to": to})
 			cctx, cancel := context.WithCancel(ctx)
 			cancels[id] = cancel
 			resp, err := client.Do(cctx, req)
